@@ -20,17 +20,6 @@ type anyCase struct {
 	Kind string `json:"kind"`
 }
 
-// guard runs one case; a panic on the driver's own goroutine is reported instead of killing the run
-func guard(what string, f func() error) (err error) {
-	defer func() {
-		if r := recover(); r != nil {
-			fmt.Fprintf(os.Stderr, "%s: panic in the code under test: %v\n", what, r)
-			err = nil
-		}
-	}()
-	return f()
-}
-
 func newWriter(c *drv.Ctx) *cw.Writer {
 	w := cw.New(c.Out, header, "dcase", []cw.Check{
 		{Name: "MISMATCH", Fn: "d_mismatch"},
